@@ -281,6 +281,13 @@ impl World {
     }
 }
 
+async fn via_generic<C: deadpool_postgres::GenericClient>(c: &C, q: &str) -> Result<tokio_postgres::Statement, tokio_postgres::Error> {
+    c.prepare_cached(q).await
+}
+async fn via_generic_typed<C: deadpool_postgres::GenericClient>(c: &C, q: &str, types: &[Type]) -> Result<tokio_postgres::Statement, tokio_postgres::Error> {
+    c.prepare_typed_cached(q, types).await
+}
+
 /// Another thread sits inside the registry (Debug-printing a Mutex holds its lock while the data is
 /// written, and the writer parks there); the given clients are taken by one thread each, which has to wait
 /// for the registry.  The step goes on once the kernel reports every taker asleep (or finished: code that
@@ -443,12 +450,17 @@ pub fn run_path(cfg: &Cfg, path: &PathRec<Post>, record: bool) -> (PathResult, V
                     }
                     tokio::time::sleep(Duration::from_millis(1)).await;
                 }
-                "Prepare" => {
+                "Prepare" | "PrepareG" => {
                     let key = st.x.get(1).and_then(|v| v.as_str()).unwrap_or("a").to_string();
                     let (q, types) = key_parts(&key);
                     let before = { let s = w.srv.lock().unwrap(); (s.conns[(arg_c - 1) as usize].msgs, s.conns[(arg_c - 1) as usize].parses.len(), s.conns.iter().map(|c| c.msgs).sum::<usize>(), s.conns.iter().map(|c| c.parses.len()).sum::<usize>()) };
                     let hit_expected = w.keys.get(&arg_c).map(|k| k.contains(&key)).unwrap_or(false);
-                    let r = if let Some(c) = w.held.get(&arg_c) {
+                    let generic = st.a == "PrepareG";
+                    let r = if let (true, Some(c)) = (generic, w.held.get(&arg_c)) {
+                        // (GenericClient is implemented for the pooled `Client`, i.e. Object<Manager>)
+                        let cl: &Client = c;
+                        Some(if types.is_empty() { via_generic(cl, q).await } else { via_generic_typed(cl, q, &types).await })
+                    } else if let Some(c) = w.held.get(&arg_c) {
                         Some(if types.is_empty() { c.prepare_cached(q).await } else { c.prepare_typed_cached(q, &types).await })
                     } else if let Some(c) = w.taken.get(&arg_c) {
                         Some(if types.is_empty() { c.prepare_cached(q).await } else { c.prepare_typed_cached(q, &types).await })
@@ -491,7 +503,7 @@ pub fn run_path(cfg: &Cfg, path: &PathRec<Post>, record: bool) -> (PathResult, V
                         let cw: &mut ClientWrapper = &mut *c;
                         match cw.transaction().await {
                             Ok(mut tx) => {
-                                let r = if depth >= 2 {
+                                let r = if depth == 2 {
                                     match tx.transaction().await {
                                         Ok(inner) => {
                                             let r = if types.is_empty() { inner.prepare_cached(q).await } else { inner.prepare_typed_cached(q, &types).await };
@@ -500,6 +512,10 @@ pub fn run_path(cfg: &Cfg, path: &PathRec<Post>, record: bool) -> (PathResult, V
                                         }
                                         Err(e) => Err(e),
                                     }
+                                } else if depth == 3 {
+                                    // through the GenericClient trait, as code that is generic over client / transaction does
+                                    let r = if types.is_empty() { via_generic(&tx, q).await } else { via_generic_typed(&tx, q, &types).await };
+                                    r.map(|s| (s, true))
                                 } else {
                                     let r = if types.is_empty() { tx.prepare_cached(q).await } else { tx.prepare_typed_cached(q, &types).await };
                                     r.map(|s| (s, true))
@@ -521,7 +537,7 @@ pub fn run_path(cfg: &Cfg, path: &PathRec<Post>, record: bool) -> (PathResult, V
                         let all: usize = s.conns.iter().map(|c| c.parses.len()).sum();
                         let parses_ok = if hit_expected { all == before.1 } else { conn.parses.len() == before.0 + 1 && conn.parses.last() == Some(&key) && all == before.1 + 1 };
                         // BEGIN .. COMMIT (and SAVEPOINT .. RELEASE inside) reached the server on this very connection
-                        let tx_ok = conn.txq.len() == before.2 + if depth >= 2 { 4 } else { 2 };
+                        let tx_ok = conn.txq.len() == before.2 + if depth == 2 { 4 } else { 2 };
                         drop(s);
                         if !(ok && parses_ok && tx_ok) {
                             w.bump("bad_prepare");
@@ -576,165 +592,6 @@ pub fn run_path(cfg: &Cfg, path: &PathRec<Post>, record: bool) -> (PathResult, V
                     // two clients are taken by two threads at the same moment (both wait for the registry, then race)
                     let c2 = st.x.get(1).and_then(|v| v.as_u64()).unwrap_or(0) as u32;
                     take_while_registry_busy(&mut w, &[arg_c, c2]);
-                }
-                "TxPrepare" => {
-                    // the same through deadpool_postgres::Transaction (depth 2: a nested transaction / savepoint):
-                    // the wrapper shares the client's statement cache
-                    let key = st.x.get(1).and_then(|v| v.as_str()).unwrap_or("a").to_string();
-                    let depth = st.x.get(2).and_then(|v| v.as_u64()).unwrap_or(1);
-                    let (q, types) = key_parts(&key);
-                    let hit_expected = w.keys.get(&arg_c).map(|k| k.contains(&key)).unwrap_or(false);
-                    let before = { let s = w.srv.lock().unwrap(); (s.conns[(arg_c - 1) as usize].parses.len(), s.conns.iter().map(|c| c.parses.len()).sum::<usize>(), s.conns[(arg_c - 1) as usize].txq.len()) };
-                    let mut outcome: Option<bool> = None;
-                    if let Some(c) = w.held.get_mut(&arg_c) {
-                        let cw: &mut ClientWrapper = &mut *c;
-                        match cw.transaction().await {
-                            Ok(mut tx) => {
-                                let r = if depth >= 2 {
-                                    match tx.transaction().await {
-                                        Ok(inner) => {
-                                            let r = if types.is_empty() { inner.prepare_cached(q).await } else { inner.prepare_typed_cached(q, &types).await };
-                                            let c = inner.commit().await;
-                                            r.map(|s| (s, c.is_ok()))
-                                        }
-                                        Err(e) => Err(e),
-                                    }
-                                } else {
-                                    let r = if types.is_empty() { tx.prepare_cached(q).await } else { tx.prepare_typed_cached(q, &types).await };
-                                    r.map(|s| (s, true))
-                                };
-                                let committed = tx.commit().await.is_ok();
-                                outcome = Some(match r {
-                                    Ok((stmt, inner_ok)) => {
-                                        inner_ok && committed && stmt.params().iter().map(|t| t.oid()).collect::<Vec<_>>() == types.iter().map(|t| t.oid()).collect::<Vec<_>>()
-                                    }
-                                    Err(_) => false,
-                                });
-                            }
-                            Err(_) => outcome = Some(false),
-                        }
-                    }
-                    if let Some(ok) = outcome {
-                        let s = w.srv.lock().unwrap();
-                        let conn = &s.conns[(arg_c - 1) as usize];
-                        let all: usize = s.conns.iter().map(|c| c.parses.len()).sum();
-                        let parses_ok = if hit_expected { all == before.1 } else { conn.parses.len() == before.0 + 1 && conn.parses.last() == Some(&key) && all == before.1 + 1 };
-                        // BEGIN .. COMMIT (and SAVEPOINT .. RELEASE inside) reached the server on this very connection
-                        let tx_ok = conn.txq.len() == before.2 + if depth >= 2 { 4 } else { 2 };
-                        drop(s);
-                        if !(ok && parses_ok && tx_ok) {
-                            w.bump("bad_prepare");
-                        }
-                        w.keys.entry(arg_c).or_default().insert(key);
-                    }
-                }
-                "PrepareJoin" => {
-                    let key = st.x.get(1).and_then(|v| v.as_str()).unwrap_or("a").to_string();
-                    let (q, types) = key_parts(&key);
-                    let c: Option<&ClientWrapper> = w.held.get(&arg_c).map(|c| &**c).or_else(|| w.taken.get(&arg_c));
-                    if let Some(c) = c {
-                        let (r1, r2) = if types.is_empty() {
-                            tokio::join!(c.prepare_cached(q), c.prepare_cached(q))
-                        } else {
-                            tokio::join!(c.prepare_typed_cached(q, &types), c.prepare_typed_cached(q, &types))
-                        };
-                        if r1.is_err() || r2.is_err() {
-                            w.bump("bad_prepare");
-                        }
-                        w.keys.entry(arg_c).or_default().insert(key);
-                    }
-                }
-                "Clear" => {
-                    w.pool.manager().statement_caches.clear();
-                    let owned: Vec<u32> = w.keys.keys().filter(|c| !w.taken.contains_key(c)).copied().collect();
-                    for c in owned {
-                        w.keys.insert(c, BTreeSet::new());
-                    }
-                }
-                "Remove" => {
-                    let key = st.x.first().and_then(|v| v.as_str()).unwrap_or("a").to_string();
-                    let (q, types) = key_parts(&key);
-                    w.pool.manager().statement_caches.remove(q, &types);
-                    let owned: Vec<u32> = w.keys.keys().filter(|c| !w.taken.contains_key(c)).copied().collect();
-                    for c in owned {
-                        w.keys.get_mut(&c).unwrap().remove(&key);
-                    }
-                }
-                "Return" => {
-                    drop(w.held.remove(&arg_c));
-                }
-                "Take" => {
-                    if let Some(c) = w.held.remove(&arg_c) {
-                        w.taken.insert(arg_c, Client::take(c));
-                    }
-                }
-                "TakeBusy" => {
-                    // another thread sits inside the registry (Debug-printing a Mutex holds its lock while the
-                    // data is written): the take has to wait for it and still unregister the client
-                    if let Some(c) = w.held.remove(&arg_c) {
-                        let gate = std::sync::Arc::new((Mutex::new((false, false)), std::sync::Condvar::new()));
-                        struct ParkWriter(std::sync::Arc<(Mutex<(bool, bool)>, std::sync::Condvar)>);
-                        impl std::fmt::Write for ParkWriter {
-                            fn write_str(&mut self, s: &str) -> std::fmt::Result {
-                                if s.contains("data") {
-                                    let (m, cv) = &*self.0;
-                                    let mut g = m.lock().unwrap();
-                                    g.0 = true;
-                                    cv.notify_all();
-                                    while !g.1 {
-                                        g = cv.wait(g).unwrap();
-                                    }
-                                }
-                                Ok(())
-                            }
-                        }
-                        let pool2 = w.pool.clone();
-                        let g2 = gate.clone();
-                        let printer = std::thread::spawn(move || {
-                            use std::fmt::Write;
-                            let mut pw = ParkWriter(g2);
-                            let _ = write!(pw, "{:?}", pool2.manager().statement_caches);
-                        });
-                        {
-                            let (m, cv) = &*gate;
-                            let mut g = m.lock().unwrap();
-                            let t0 = Instant::now();
-                            while !g.0 && t0.elapsed() < Duration::from_secs(2) {
-                                g = cv.wait_timeout(g, Duration::from_millis(50)).unwrap().0;
-                            }
-                        }
-                        // the taker publishes its kernel thread id; the step goes on once that thread SLEEPS (it is
-                        // waiting for the registry's mutex) or has finished (code that does not wait) - no timing
-                        let (tid_tx, tid_rx) = std::sync::mpsc::channel::<String>();
-                        let taker = std::thread::spawn(move || {
-                            let me = std::fs::read_link("/proc/thread-self").map(|p| p.to_string_lossy().to_string()).unwrap_or_default();
-                            let _ = tid_tx.send(me);
-                            Client::take(c)
-                        });
-                        let me = tid_rx.recv_timeout(Duration::from_secs(2)).unwrap_or_default();
-                        let t0 = Instant::now();
-                        let mut asleep = 0;
-                        while !taker.is_finished() && asleep < 3 && t0.elapsed() < Duration::from_secs(2) {
-                            let st = std::fs::read_to_string(format!("/proc/{}/stat", me)).unwrap_or_default();
-                            // "pid (comm) S ..." : the state letter follows the closing parenthesis
-                            let state = st.rsplit(')').next().and_then(|r| r.trim_start().chars().next()).unwrap_or('?');
-                            if state == 'S' {
-                                asleep += 1;
-                            } else {
-                                asleep = 0;
-                            }
-                            std::thread::sleep(Duration::from_micros(300));
-                        }
-                        {
-                            let (m, cv) = &*gate;
-                            m.lock().unwrap().1 = true;
-                            cv.notify_all();
-                        }
-                        let _ = printer.join();
-                        if let Ok(cw) = taker.join() {
-                            w.taken.insert(arg_c, cw);
-                        }
-                    }
                 }
                 _ => {}
             }
